@@ -727,7 +727,7 @@ func permsFor(r *rand.Rand, n int) [][]int {
 
 // knownRefTypeOr: the structure of known finding K-C08-ref-type-or: a `@t` example
 // node whose rules are an `or` of bare type names, user-written `type` rules with the
-// value "@t" (the node's own reference) or "mixed", and optional / nullable — with
+// value "@t" (the node's own reference) or "mixed", and optional / nullable / const: false — with
 // either a type: "@t" or a repeated type rule among them. (MixedValueNode.addTypeConstraint
 // lets a `type` rule replace the existing one instead of applying the duplicate check.)
 func knownRefTypeOr(rc rcase) string {
@@ -756,6 +756,10 @@ func knownRefTypeOr(rc rcase) string {
 			}
 			nType++
 		case "nullable", "optional":
+		case "const": // const: false is as good as absent [C1]
+			if r.p.b {
+				return ""
+			}
 		default:
 			return ""
 		}
